@@ -7,10 +7,14 @@ classes(
     "parglare.glr",
     StateG=dict(fields={"state_id": "int"}),
     TokG=dict(fields={}),
+    AltG=dict(fields={"context": "any"}),
+    ParentG=dict(fields={"head": "opt[ref[GSSNode]]", "root": "ref[GSSNode]", "possibilities": "list[ref[AltG]]",
+                         "_solutions": "opt[int]", "_ambiguities": "opt[int]", "start_position": "int",
+                         "end_position": "int", "production": "any", "token": "opt[ref[TokG]]"}),
     GSSNode=dict(fields={"state": "ref[StateG]", "position": "int", "frontier": "int", "input_str": "any",
                          "file_name": "opt[str]", "extra": "any", "id": "str", "_ambiguity": "opt[int]",
                          "token_ahead": "opt[ref[TokG]]", "layout_content": "str", "layout_content_ahead": "str",
-                         "debug": "bool", "parents": "dict[str,any]"}),
+                         "debug": "bool", "parents": "dict[str,ref[ParentG]]"}),
 )
 
 contract("parglare.glr.GSSNode.__init__",
@@ -52,4 +56,103 @@ contract("parglare.glr.GSSNode.for_token",
          modifies=["self.token_ahead"], properties=("C01", "C07", "C08"),
          canaries=[("clone-shares-links", {"ensures": ["implies(result != self, result.parents == self.parents)"]})])
 
-GSS_C01 = ["parglare.glr.GSSNode.__init__", "parglare.glr.GSSNode.for_token"]
+# ---- links: nothing is lost when a second path reaches the same pair of nodes (C02) ------------------------------------
+contract("parglare.glr.Parent.merge",
+         params={"self": "ref[ParentG]", "other": "ref[ParentG]"},
+         requires=["allocated(self.possibilities) and allocated(other.possibilities)",
+                   "self.possibilities != other.possibilities"],
+         ensures=[
+             # the other link's alternatives are appended, in order, after the ones already there
+             "len(self.possibilities) == old(len(self.possibilities)) + old(len(other.possibilities))",
+             "forall(0, old(len(self.possibilities)), lambda i: self.possibilities[i] == old(self.possibilities[i]))",
+             "forall(0, old(len(other.possibilities)), lambda i: "
+             "self.possibilities[old(len(self.possibilities)) + i] == old(other.possibilities[i]))",
+             # the cached tree count is invalidated; the list object and the other link stay
+             "self._solutions is None and self.possibilities == old(self.possibilities)",
+             "len(other.possibilities) == old(len(other.possibilities))",
+         ],
+         modifies=["list(self.possibilities)", "self._solutions"], properties=("C02", "C03"))
+
+contract("parglare.glr.GSSNode.create_link",
+         params={"self": "ref[GSSNode]", "parent": "ref[ParentG]"}, returns="bool",
+         requires=["allocated(self.parents) and allocated(parent.root) and allocated(parent.possibilities)",
+                   "not self.debug",
+                   "forall_str(lambda k: implies(haskey(self.parents, k), allocated(self.parents[k]) and "
+                   "allocated(self.parents[k].possibilities) and self.parents[k] != parent and "
+                   "self.parents[k].possibilities != parent.possibilities))"],
+         ensures=[
+             "parent.head == self",
+             # a link to that root node is created iff there was none (links are keyed by the root node's id)
+             "result == (not old(haskey(self.parents, parent.root.id)))",
+             "implies(result, haskey(self.parents, parent.root.id) and self.parents[parent.root.id] == parent)",
+             # otherwise the existing link stays and receives the new alternatives (none lost)
+             "implies(not result, self.parents[parent.root.id] == old(self.parents[parent.root.id]) and "
+             "len(self.parents[parent.root.id].possibilities) == "
+             "old(len(self.parents[parent.root.id].possibilities)) + old(len(parent.possibilities)))",
+             # links to other root nodes are untouched
+             "forall_str(lambda k: implies(k != parent.root.id, haskey(self.parents, k) == old(haskey(self.parents, k)) and "
+             "implies(haskey(self.parents, k), self.parents[k] == old(self.parents[k]))))",
+         ],
+         modifies=None, properties=("C01", "C02"))
+
+contract("parglare.glr.Parent.__init__",
+         params={"self": "ref[ParentG]", "head": "opt[ref[GSSNode]]", "root": "ref[GSSNode]", "start_position": "int",
+                 "end_position": "opt[int]", "possibilities": "opt[list[ref[AltG]]]", "production": "any",
+                 "token": "opt[ref[TokG]]"},
+         defaults={"end_position": None, "possibilities": None, "production": None, "token": None},
+         requires=["implies(possibilities is not None, live(possibilities) and "
+                   "forall(0, len(possibilities), lambda i: live(possibilities[i])))"],
+         ensures=[
+             "self.root == root and self.head == head and self.start_position == start_position and "
+             "self.token == token and self.production == production",
+             # an omitted end position means an empty span
+             "self.end_position == (end_position if end_position is not None else start_position)",
+             "self._solutions is None and self._ambiguities is None",
+             # given alternatives are adopted (the list itself) and re-pointed to this link
+             "implies(possibilities is not None and len(possibilities) > 0, self.possibilities == possibilities and "
+             "forall(0, len(possibilities), lambda i: possibilities[i].context == self))",
+             # a token gives exactly one (leaf) alternative, nothing gives none
+             "implies((possibilities is None or len(possibilities) == 0) and token is not None, "
+             "fresh(self.possibilities) and len(self.possibilities) == 1)",
+             "implies((possibilities is None or len(possibilities) == 0) and token is None, "
+             "fresh(self.possibilities) and len(self.possibilities) == 0)",
+         ],
+         modifies=["self.*", "field(AltG.context)"],
+         loops={0: {"inv": ["forall(0, __i0, lambda i: possibilities[i].context == self)",
+                            "self.possibilities == possibilities and self.root == root and self.head == head",
+                            "self.start_position == start_position and self.token == token and "
+                            "self.production == production and self._solutions is None and self._ambiguities is None",
+                            "self.end_position == (end_position if end_position is not None else start_position)"]}},
+         properties=("C01", "C08"))
+
+contract("parglare.glr.Parent.clone_with_root",
+         params={"self": "ref[ParentG]", "root": "ref[GSSNode]"}, returns="ref[ParentG]",
+         requires=["allocated(self.possibilities) and allocated(root)",
+                   "forall(0, len(self.possibilities), lambda i: allocated(self.possibilities[i]))",
+                   # (a link holds either reduced alternatives or one token leaf; clones are made of token links)
+                   "len(self.possibilities) >= 1"],
+         ensures=[
+             "fresh(result) and result != self",
+             # the same link over the same span and token, from another root node
+             "result.root == root and result.head == old(self.head) and result.start_position == old(self.start_position) and "
+             "result.end_position == old(self.end_position) and result.token == old(self.token)",
+             # with its OWN list holding the same alternatives
+             "fresh(result.possibilities) and result.possibilities != self.possibilities and "
+             "len(result.possibilities) == old(len(self.possibilities))",
+             "forall(0, old(len(self.possibilities)), lambda i: result.possibilities[i] == old(self.possibilities[i]))",
+             # this link keeps its alternatives (their context, however, now points to the clone: a clone takes them over)
+             "len(self.possibilities) == old(len(self.possibilities)) and "
+             "forall(0, old(len(self.possibilities)), lambda i: self.possibilities[i] == old(self.possibilities[i]))",
+             "forall(0, old(len(self.possibilities)), lambda i: result.possibilities[i].context == result)",
+         ],
+         modifies=None, class_views={"Parent": "ParentG"}, properties=("C01", "C08"))
+
+# (the typed view of glr.Parent is called ParentG here -- contracts/trees.py has its own view named Parent; calls of
+# <ParentG>.merge find the contract through this alias)
+from vlib.pyvc.api import REG  # noqa: E402
+REG["parglare.glr.ParentG.merge"] = REG["parglare.glr.Parent.merge"]
+REG["parglare.glr.ParentG.__init__"] = REG["parglare.glr.Parent.__init__"]
+
+GSS_C01 = ["parglare.glr.GSSNode.__init__", "parglare.glr.GSSNode.for_token", "parglare.glr.Parent.__init__",
+           "parglare.glr.Parent.merge", "parglare.glr.Parent.clone_with_root",
+           "parglare.glr.GSSNode.create_link"]
